@@ -49,6 +49,7 @@ pub fn check_serde(r: &mut Recorder, input: &[u8], exp: &Value) {
                                 other => r.dis(&["C19"], "serde-to-value", json!({"expected": want, "observed": format!("{:?}", other)})),
                             }
                             other_doors(r, &v, &want, text);
+                            binary_format(r, s, exp_ok, Some((&v, &want)));
                         }
                         other => r.dis(&["C19"], "serde-serialise-failed", json!({"json": text, "observed": format!("{:?}", other)})),
                     }
@@ -60,6 +61,9 @@ pub fn check_serde(r: &mut Recorder, input: &[u8], exp: &Value) {
                 }
             }
         }
+    }
+    if !exp_ok {
+        binary_format(r, s, exp_ok, None);
     }
     // a reader-based deserializer hands the visitor owned / scratch strings instead of borrowed ones
     r.stat("serde_from_reader");
@@ -89,6 +93,75 @@ pub fn check_serde(r: &mut Recorder, input: &[u8], exp: &Value) {
                 r.dis(&["C19"], "serde-from-value-rejects-well-formed", json!({"value": s}));
             }
         }
+    }
+}
+
+/// A data format that is NOT human readable (`is_human_readable() == false`, as bincode / postcard / CBOR report): the
+/// property speaks of the serialised form, not of JSON.  The serializer accepts exactly one `serialize_str` and records it;
+/// the deserializer hands a string to the visitor.
+mod binfmt {
+    use serde::de::{self, Visitor};
+    use serde::ser::{self, Impossible};
+    use std::fmt;
+
+    #[derive(Debug)]
+    pub struct E(pub String);
+    impl fmt::Display for E { fn fmt(&self, f: &mut fmt::Formatter) -> fmt::Result { write!(f, "{}", self.0) } }
+    impl std::error::Error for E {}
+    impl ser::Error for E { fn custom<T: fmt::Display>(m: T) -> Self { E(m.to_string()) } }
+    impl de::Error for E { fn custom<T: fmt::Display>(m: T) -> Self { E(m.to_string()) } }
+
+    pub struct StrOnly;
+    macro_rules! no { ($($f:ident($($t:ty),*);)*) => { $( fn $f(self $(, _: $t)*) -> Result<String, E> { Err(E(concat!("not a string: ", stringify!($f)).into())) } )* } }
+    impl ser::Serializer for StrOnly {
+        type Ok = String; type Error = E;
+        type SerializeSeq = Impossible<String, E>; type SerializeTuple = Impossible<String, E>;
+        type SerializeTupleStruct = Impossible<String, E>; type SerializeTupleVariant = Impossible<String, E>;
+        type SerializeMap = Impossible<String, E>; type SerializeStruct = Impossible<String, E>;
+        type SerializeStructVariant = Impossible<String, E>;
+        fn is_human_readable(&self) -> bool { false }
+        fn serialize_str(self, v: &str) -> Result<String, E> { Ok(v.to_string()) }
+        no! { serialize_bool(bool); serialize_i8(i8); serialize_i16(i16); serialize_i32(i32); serialize_i64(i64); serialize_u8(u8);
+              serialize_u16(u16); serialize_u32(u32); serialize_u64(u64); serialize_f32(f32); serialize_f64(f64); serialize_char(char);
+              serialize_bytes(&[u8]); serialize_none(); serialize_unit(); serialize_unit_struct(&'static str);
+              serialize_unit_variant(&'static str, u32, &'static str); }
+        fn serialize_some<T: ?Sized + ser::Serialize>(self, _: &T) -> Result<String, E> { Err(E("not a string: some".into())) }
+        fn serialize_newtype_struct<T: ?Sized + ser::Serialize>(self, _: &'static str, _: &T) -> Result<String, E> { Err(E("not a string: newtype".into())) }
+        fn serialize_newtype_variant<T: ?Sized + ser::Serialize>(self, _: &'static str, _: u32, _: &'static str, _: &T) -> Result<String, E> { Err(E("not a string: variant".into())) }
+        fn serialize_seq(self, _: Option<usize>) -> Result<Self::SerializeSeq, E> { Err(E("not a string: seq".into())) }
+        fn serialize_tuple(self, _: usize) -> Result<Self::SerializeTuple, E> { Err(E("not a string: tuple".into())) }
+        fn serialize_tuple_struct(self, _: &'static str, _: usize) -> Result<Self::SerializeTupleStruct, E> { Err(E("not a string: tuple struct".into())) }
+        fn serialize_tuple_variant(self, _: &'static str, _: u32, _: &'static str, _: usize) -> Result<Self::SerializeTupleVariant, E> { Err(E("not a string".into())) }
+        fn serialize_map(self, _: Option<usize>) -> Result<Self::SerializeMap, E> { Err(E("not a string: map".into())) }
+        fn serialize_struct(self, _: &'static str, _: usize) -> Result<Self::SerializeStruct, E> { Err(E("not a string: struct".into())) }
+        fn serialize_struct_variant(self, _: &'static str, _: u32, _: &'static str, _: usize) -> Result<Self::SerializeStructVariant, E> { Err(E("not a string".into())) }
+    }
+
+    pub struct StrDe<'a>(pub &'a str);
+    impl<'de, 'a> de::Deserializer<'de> for StrDe<'a> {
+        type Error = E;
+        fn is_human_readable(&self) -> bool { false }
+        fn deserialize_any<V: Visitor<'de>>(self, v: V) -> Result<V::Value, E> { v.visit_str(self.0) }
+        serde::forward_to_deserialize_any! { bool i8 i16 i32 i64 i128 u8 u16 u32 u64 u128 f32 f64 char str string bytes byte_buf option unit
+            unit_struct newtype_struct seq tuple tuple_struct map struct enum identifier ignored_any }
+    }
+}
+
+/// the serialised form and the reading of a string do not depend on the data format being "human readable"
+fn binary_format(r: &mut Recorder, s: &str, exp_ok: bool, v: Option<(&LanguageIdentifier, &str)>) {
+    use serde::{Deserialize, Serialize};
+    r.stat("serde_binary_format");
+    if let Some((v, want)) = v {
+        match guard(|| v.serialize(binfmt::StrOnly)) {
+            Ok(Ok(out)) if format!("\"{}\"", out) == want => {}
+            other => r.dis(&["C19"], "serde-serialised-form-in-a-binary-format", json!({"expected": want, "observed": format!("{:?}", other)})),
+        }
+    }
+    match guard(|| LanguageIdentifier::deserialize(binfmt::StrDe(s))) {
+        Err(at) => r.dis(&["C01", "C19"], &format!("panic@{}", short_at(&at)), json!({"string": s, "api": "deserialize (binary format)", "panic": at})),
+        Ok(Ok(_)) if exp_ok => {}
+        Ok(Err(_)) if !exp_ok => {}
+        Ok(x) => r.dis(&["C19"], "serde-binary-format-verdict-differs-from-parsing", json!({"string": s, "parses": exp_ok, "deserialises": x.is_ok()})),
     }
 }
 
